@@ -226,3 +226,98 @@ Section Stmt.
           inversion T; subst. reflexivity.
   Qed.
 End Stmt.
+
+Section Grammar.
+  Variable c : cfg.
+
+  Lemma statement_fails_empty : forall ex p, statement_p c ex (mkin EmptyString p) = Err tt.
+  Proof.
+    intros. unfold statement_p, call_variant, terminal. rewrite terminal_spec. cbn [lex1 obind].
+    unfold nonterm_def_statement, nonterm_def, nonterm_specialization, nonterm, char_p. cbn [rest obind fail].
+    reflexivity.
+  Qed.
+
+  Lemma stmt_txt_nonempty : forall lay nosemi s, wf_stmt s = true ->
+      (0 < String.length (stmt_txt lay nosemi s))%nat.
+  Proof.
+    intros lay nosemi s W. destruct (stmt_first lay nosemi s EmptyString W) as (ch & t & E & _).
+    rewrite app_nil_r_s in E. rewrite E. cbn. lia.
+  Qed.
+
+  Lemma stmts_nonblank : forall lay fs k g, forallb wf_stmt g = true -> nonblank (stmts_txt lay fs k g).
+  Proof.
+    intros lay fs k [|s r] W; [reflexivity|]. cbn [forallb] in W. apply andb_true_iff in W as [Ws _].
+    cbn [stmts_txt]. destruct (stmt_first (sub lay k) (negb fs && match r with [] => true | _ => false end) s
+                                 (stmts_txt lay fs (S k) r) Ws) as (ch & t & E & B).
+    unfold nonblank. rewrite E. cbn [hd_in]. rewrite B. reflexivity.
+  Qed.
+
+  Lemma many0_stmts : forall g lay fs k p m fuel,
+      forallb wf_stmt g = true ->
+      (String.length (stmts_txt lay fs k g) < m)%nat -> (String.length (stmts_txt lay fs k g) < fuel)%nat ->
+      exists q, many0_p fuel (statement_p c (expr_p c (S m))) (mkin (stmts_txt lay fs k g) p)
+                = Ok (stmts_loc c lay fs k g p, mkin EmptyString q).
+  Proof.
+    induction g as [|s r IH]; intros lay fs k p m fuel W Hm Hf.
+    - destruct fuel; [cbn in Hf; lia|]. cbn [stmts_txt many0_p stmts_loc].
+      rewrite statement_fails_empty. eexists; reflexivity.
+    - destruct fuel; [lia|]. cbn [forallb] in W. apply andb_true_iff in W as [Ws Wr].
+      cbn [stmts_txt many0_p stmts_loc] in *.
+      set (nosemi := negb fs && match r with [] => true | _ => false end) in *.
+      assert (HR : nosemi = true -> stmts_txt lay fs (S k) r = EmptyString).
+      { subst nosemi. intros E. apply andb_true_iff in E as [_ E]. destruct r; [reflexivity|discriminate]. }
+      rewrite (stmt_parse c (sub lay k) nosemi s _ p m Ws HR (stmts_nonblank lay fs (S k) r Wr) Hm).
+      pose proof (stmt_txt_nonempty (sub lay k) nosemi s Ws) as Ne.
+      rewrite length_app_s in Hm, Hf.
+      destruct (stmt_loc c (sub lay k) nosemi s p) as [s' p1]. cbn [fst snd rest].
+      rewrite length_app_s.
+      destruct (Nat.eqb (String.length (stmts_txt lay fs (S k) r))
+                        (String.length (stmt_txt (sub lay k) nosemi s) + String.length (stmts_txt lay fs (S k) r))) eqn:E.
+      { apply Nat.eqb_eq in E. lia. }
+      destruct (IH lay fs (S k) p1 m fuel Wr ltac:(lia) ltac:(lia)) as [q Hq].
+      rewrite Hq. eexists; reflexivity.
+  Qed.
+
+  (** The round trip for grammars, for either configuration of the terminal lexer. *)
+  Theorem roundtrip_cfg : forall g lay, wf g -> parse_with c (text g lay) = Ok (located_with c g lay).
+  Proof.
+    intros g lay W. unfold wf in W. unfold parse_with, grammar_p, text, located_with, start.
+    rewrite multiblanks0_spec.
+    rewrite skip_gap_nonblank by (apply stmts_nonblank; exact W).
+    set (g0 := gap_text (nl_gap (lay []) 0)).
+    set (body := stmts_txt lay (nl_flag (lay [])) 0 g).
+    destruct (many0_stmts g lay (nl_flag (lay [])) 0 (adv_str g0 pos0) (S (String.length (append g0 body)))
+                (S (S (String.length (append g0 body)))) W) as [q Hq].
+    { fold body. rewrite length_app_s. lia. }
+    { fold body. rewrite length_app_s. lia. }
+    fold body in Hq. rewrite Hq.
+    rewrite multiblanks0_spec. rewrite skip_no_blank by reflexivity. cbn [rest]. reflexivity.
+  Qed.
+
+  (** locating only changes spans *)
+  Lemma erase_stmt_loc : forall lay nosemi s p, erase_stmt (fst (stmt_loc c lay nosemi s p)) = erase_stmt s.
+  Proof.
+    intros. destruct s as [name nsp e | name nsp sh rhs]; cbn [stmt_loc].
+    - pose proof (erase_loc c (sub lay 0) 0 e
+                   (adv_str (gap_text (gap1 (nl_gap (lay []) 0))) (pieces_adv c (spell (nl_esc (lay [])) false name) p))) as E.
+      destruct (loc c (sub lay 0) 0 e _) as [e' p3]. cbn [fst erase_stmt] in *. rewrite E. reflexivity.
+    - destruct sh as [[sn ssp]|].
+      + match goal with |- context [loc c (sub lay 0) 0 rhs ?q] => pose proof (erase_loc c (sub lay 0) 0 rhs q) as E;
+          destruct (loc c (sub lay 0) 0 rhs q) as [e' p5] end.
+        cbn [fst erase_stmt] in *. rewrite E. reflexivity.
+      + match goal with |- context [loc c (sub lay 0) 0 rhs ?q] => pose proof (erase_loc c (sub lay 0) 0 rhs q) as E;
+          destruct (loc c (sub lay 0) 0 rhs q) as [e' p5] end.
+        cbn [fst erase_stmt] in *. rewrite E. reflexivity.
+  Qed.
+
+  Lemma erase_stmts_loc : forall g lay fs k p, erase_grammar (stmts_loc c lay fs k g p) = erase_grammar g.
+  Proof.
+    induction g as [|s r IH]; intros; [reflexivity|]. cbn [stmts_loc].
+    pose proof (erase_stmt_loc (sub lay k) (negb fs && match r with [] => true | _ => false end) s p) as E.
+    destruct (stmt_loc c (sub lay k) _ s p) as [s' p1]. cbn [fst] in E.
+    unfold erase_grammar in *. cbn [map]. rewrite E, IH. reflexivity.
+  Qed.
+
+  Theorem erase_located : forall g lay, erase_grammar (located_with c g lay) = erase_grammar g.
+  Proof. intros. unfold located_with. apply erase_stmts_loc. Qed.
+End Grammar.
